@@ -177,4 +177,13 @@ def run(repo, tier):
     from .common import run_cast_to_data_dtype
     run_cast_to_data_dtype(repo, res, {m for m in repo.modules if '.tests' not in m and not m.startswith('photutils.segmentation.')
                                        and 'extern' not in m} | {'photutils.segmentation.catalog'})
+    from .common import run_clone_pairs
+    run_clone_pairs(repo, res, {m for m in repo.modules if '.tests' not in m and 'extern' not in m})
+    from .common import apply_specs
+    from ..forward import run_forward
+    apply_specs(repo, res, [
+        ('photutils.psf.photometry.PSFPhotometry._check_init_units', 'stmt', 'init_params[colname] = values.to(self.data_unit)',
+         'unit-ful init columns are converted to the data unit (their bare values are used afterwards)'),
+    ])
+    run_forward(repo, res, {'photutils.aperture.photometry', 'photutils.aperture.core', 'photutils.aperture.stats'})
     return res
